@@ -371,10 +371,19 @@ def m_isdecimal(ex, s, args, kw, st, node):
     return [(st, VBool(App('py_isdecimal', BOOL, s)))]
 
 
+def lower_fact(s):
+    """str.lower() leaves text without upper-case letters unchanged; stated for ASCII text
+    (code points 0..0x40 and 0x5b..0x7f), elsewhere str_lower stays uninterpreted"""
+    safe = App('re.*', 'RegLan', App('re.union', 'RegLan',
+                                     App('re.range', 'RegLan', strlit('\x00'), strlit('@')),
+                                     App('re.range', 'RegLan', strlit('['), strlit('\x7f'))))
+    return Implies(App('str.in_re', BOOL, s, safe), Eq(App('str_lower', STR, s), s))
+
+
 def m_lower(ex, s, args, kw, st, node):
     if s.op == 'str':
         return [(st, VStr(strlit(s.args[0].lower())))]
-    return [(st, VStr(App('str_lower', STR, s)))]
+    return [(st.assume(lower_fact(s)), VStr(App('str_lower', STR, s)))]
 
 
 def m_count(ex, s, args, kw, st, node):
@@ -869,6 +878,30 @@ def s_implies(ex, e, st):
     return [(o, VBool(Implies(a, cons)))]
 
 
+def s_re_match(ex, e, st):
+    from .regex import anchored_to_smt
+    outs = eval_args(ex, e, st)
+    if len(outs) != 1 or not outs[0][0].running:
+        raise SpecError('re_match arguments')
+    o, args, _ = outs[0]
+    pat = args[0].args[1].args[0]
+    rt = anchored_to_smt(pat)
+    if rt is None:
+        raise SpecError('re_match pattern %r' % pat)
+    return [(o, VBool(And(Is('VStr', args[1]), App('str.in_re', BOOL, Acc('sv', args[1]), rt))))]
+
+
+def s_lower(ex, e, st):
+    outs = eval_args(ex, e, st)
+    if len(outs) != 1 or not outs[0][0].running:
+        raise SpecError('lower argument')
+    o, args, _ = outs[0]
+    sv = Acc('sv', args[0])
+    if sv.op == 'str':
+        return [(o, VStr(strlit(sv.args[0].lower())))]
+    return [(o.assume(lower_fact(sv)), VStr(App('str_lower', STR, sv)))]
+
+
 SPEC_BUILTINS = {
     'is_int': _spec_pred(lambda v: intlike(v)),
     'is_bool': _spec_pred(lambda v: Is('VBool', v)),
@@ -879,5 +912,5 @@ SPEC_BUILTINS = {
     'is_float': _spec_pred(lambda v: Is('VFloat', v)),
     'same': _spec_pred(lambda a, b: Eq(a, b)),
     'is_ref': _spec_pred(lambda v: Is('VRef', v)),
-    'all': s_all, 'any': s_any, 'implies': s_implies,
+    'all': s_all, 'any': s_any, 'implies': s_implies, 're_match': s_re_match, 'lower': s_lower,
 }
